@@ -109,3 +109,9 @@ func vClockReading(i int) int64 { return 0 }
 
 // vFSWriteCount: number of successful write calls on model files (engine only).
 func vFSWriteCount() int { return 0 }
+
+// vClockStall: stall rule for the symbolic clock (engine only), see DESIGN.md C13.
+func vClockStall(intervalSec int) {}
+
+// vClockWindow: all symbolic readings lie within sec seconds of the first one (engine only).
+func vClockWindow(sec int) {}
